@@ -35,7 +35,7 @@ func histProbe() {
 		},
 		OnBlock: func(i int, height int64, resp *abci.ResponseFinalizeBlock) {
 			for k, r := range resp.TxResults {
-				if r.Code != 0 && i > 295 {
+				if r.Code != 0 && (i > 295 || i == 20) {
 					fmt.Println("blk", i, "tx", k, "code", r.Code, r.Log[:min(len(r.Log), 150)])
 				}
 			}
@@ -49,6 +49,15 @@ func histProbe() {
 						cm, _ := m.ConsensusMsg(r.W.App.AppCodec())
 						fmt.Printf("  blk %d %s msg %d sigs=%d ev=%d %v\n", i, sub, m.GetId(), len(m.GetSignData()), len(m.GetEvidence()), cm)
 					}
+				}
+			}
+			if i == 55 {
+				ctx0 := r.W.App.NewUncachedContext(false, r.W.Root.BlockHeader())
+				sn, _ := r.W.App.ValsetKeeper.GetCurrentSnapshot(ctx0)
+				on, _ := r.W.App.ValsetKeeper.GetLatestSnapshotOnChain(ctx0, hist.Ref)
+				fmt.Println("snapshot id", sn.GetId(), "created", sn.CreatedAt, "on-chain", on.GetId(), on.CreatedAt)
+				for _, v := range sn.Validators {
+					fmt.Println("   ", v.Address.String()[len(v.Address.String())-6:], v.ShareCount)
 				}
 			}
 			if false {
